@@ -41,7 +41,23 @@ def gen_scenarios(seed, tier):
     rng = random.Random(seed * 6151 + 14)
     n = 1500 if tier == "quick" else 30000
     for i in range(n):
-        yield gen_one(rng, i)
+        d = gen_one(rng, i)
+        if i % 6 == 5:
+            d = add_duplicates(rng, d)
+        yield d
+
+
+def add_duplicates(rng, d):
+    """repeat some inputs (the property quantifies over duplicate inputs); already-finished inputs are also taken as finished
+    LIBRARY futures (f_map of an f_return*), whose add_done_callback calls a callback for a done future directly"""
+    d = dict(d)
+    n = len(d["inputs"])
+    d["inputs"] = [(("libdone" if (form == "done" and rng.random() < 0.7) else form), oc) for (form, oc) in d["inputs"]]
+    occ = list(range(n))
+    for _ in range(rng.randint(1, 2)):
+        occ.insert(rng.randint(0, len(occ)), rng.randrange(n))
+    d["occ"] = occ
+    return d
 
 
 def gen_one(rng, i):
@@ -99,14 +115,14 @@ def wrap_handle_done():
 
 
 def body_for(desc, ctx):
-    from more_executors.futures import f_or, f_and, f_return, f_return_error, f_return_cancelled, f_nocancel
+    from more_executors.futures import f_or, f_and, f_return, f_return_error, f_return_cancelled, f_nocancel, f_map
 
     def body(s, w):
         ctx.inputs = []
         ctx.inner = []
         ctx.exc = {}
         for j, (form, oc) in enumerate(desc["inputs"]):
-            if form == "done":
+            if form in ("done", "libdone"):
                 if oc[0] == "ok":
                     f = f_return(VALS[oc[1]])
                 elif oc[0] == "err":
@@ -115,6 +131,8 @@ def body_for(desc, ctx):
                     f = f_return_error(e)
                 else:
                     f = f_return_cancelled()
+                if form == "libdone":
+                    f = f_map(f)
                 inner = f
             else:
                 inner = SimFuture()
@@ -127,7 +145,7 @@ def body_for(desc, ctx):
         s.ev("call", "f_op")
         op = f_or if desc["kind"] == "or" else f_and
         try:
-            out = op(*ctx.inputs)
+            out = op(*[ctx.inputs[k] for k in desc["occ"]]) if desc.get("occ") else op(*ctx.inputs)
         except core.Abort:
             raise
         except BaseException as e:
@@ -194,7 +212,7 @@ def analyse(s, ctx, desc):
     if not hasattr(ctx, "out"):
         return hits, None, None
     n = len(ctx.inputs)
-    if n == 1:
+    if n == 1 and not desc.get("occ"):
         if ctx.out is not ctx.inputs[0]:
             hits.append(hit("C14/single-input-not-identity", "f_%s(f) did not return f" % desc["kind"]))
         return hits, None, None
@@ -231,6 +249,13 @@ def analyse(s, ctx, desc):
             hits.append(hit("C14/thread-died:%s" % e[2], "thread %d died with %s at %s" % (t, e[2], e[3])))
         elif k == "log" and e[3] in ("ERROR", "CRITICAL"):
             hits.append(hit("C14/logged-error:%s" % e[5], "logger %s: %s (%s)" % (e[2], e[4], e[5])))
+    if desc.get("occ"):
+        # a repeated input is one input: the fold runs over the distinct futures, each at its first critical section
+        first = []
+        for j in sections:
+            if j not in first:
+                first.append(j)
+        sections = first
     line = "k5.fold %s %d %s %s" % (desc["kind"], OUT_ID, ",".join(str(j) for j in range(n)) or "-",
                                      " ".join(in_line(j, ctx.in_final[j], ctx) for j in sections))
     return hits, line, dict(sections=sections, cancels_seen=cancels_seen)
